@@ -180,7 +180,15 @@ type OpRes struct {
 	Info     *Info             `json:"info"`
 	Dot      interface{}       `json:"dot"`
 	DotText  *string           `json:"dotText,omitempty"`
+	DotNames *DotNames         `json:"dotNames,omitempty"`
 	PanicMsg string            `json:"panicMsg,omitempty"`
+}
+
+// DotNames is what package reflect and the runtime know about a picture and the model does not (K-dottext):
+// Type.String() of every type of the program, Name and Package of the constructors of createGraph, in order.
+type DotNames struct {
+	Types [][]interface{} `json:"types"` // [id, "string"]
+	Ctors [][2]string     `json:"ctors"`
 }
 
 type verdictErr struct {
